@@ -116,8 +116,21 @@ func c05QueryValues() [][]byte {
 	return [][]byte{c05V1, c05V29, c05V32, c05V33, ref.Blake256(c05V33), {}}
 }
 
-func c05QueryKeys() [][]byte {
+func c05QueryKeys(own [][]byte) [][]byte {
 	var ks [][]byte
+	if own != nil {
+		ks = append(ks, own...)
+		for _, k := range c05Probes {
+			dup := false
+			for _, o := range own {
+				dup = dup || bytes.Equal(o, k)
+			}
+			if !dup {
+				ks = append(ks, k)
+			}
+		}
+		return ks
+	}
 	ks = append(ks, c05Alphabet...)
 	ks = append(ks, c05Probes...)
 	return ks
@@ -245,15 +258,22 @@ func c05Hashed(ver int, v []byte) bool { return ver == 1 && len(v) > 32 }
 // ---- states ----
 
 type c05State struct {
-	ver int
-	m   map[string][]byte
+	ver  int
+	m    map[string][]byte
+	keys [][]byte // the family's own key alphabet (nil = the global one); always part of the queried keys
 }
 
 // c05Family: every map with minN..maxN entries over the key alphabet and the values vals.
 type c05Family struct {
 	minN, maxN int
 	vals       [][]byte
+	keys       [][]byte // nil = c05Alphabet
 }
+
+// second key alphabet: keys around a ZERO low nibble.  '10' ends exactly at the slot of the branch
+// '1034' (value + children '103456','103478'), '15' is a same-length sibling that shares all nibbles
+// but the last (zero) one, '1030' diverges inside the branch's partial key at a zero nibble.
+var c05AlphabetZero = [][]byte{{0x10}, {0x10, 0x34}, {0x10, 0x34, 0x56}, {0x10, 0x34, 0x78}, {0x15}, {0x10, 0x30}}
 
 func c05States(fams []c05Family) []c05State {
 	var out []c05State
@@ -266,13 +286,17 @@ func c05States(fams []c05Family) []c05State {
 func c05FamilyStates(f c05Family) []c05State {
 	vals := f.vals
 	var out []c05State
-	n := len(c05Alphabet)
+	alphabet := c05Alphabet
+	if f.keys != nil {
+		alphabet = f.keys
+	}
+	n := len(alphabet)
 	for size := f.minN; size <= f.maxN; size++ {
 		for mask := 0; mask < 1<<n; mask++ {
 			var ks [][]byte
 			for i := 0; i < n; i++ {
 				if mask>>i&1 == 1 {
-					ks = append(ks, c05Alphabet[i])
+					ks = append(ks, alphabet[i])
 				}
 			}
 			if len(ks) != size {
@@ -284,7 +308,7 @@ func c05FamilyStates(f c05Family) []c05State {
 			}
 			if size == 0 {
 				for ver := 0; ver <= 1; ver++ {
-					out = append(out, c05State{ver, map[string][]byte{}})
+					out = append(out, c05State{ver, map[string][]byte{}, f.keys})
 				}
 				continue
 			}
@@ -294,7 +318,7 @@ func c05FamilyStates(f c05Family) []c05State {
 					for i, k := range ks {
 						m[string(k)] = vals[idx[i]]
 					}
-					out = append(out, c05State{ver, m})
+					out = append(out, c05State{ver, m, f.keys})
 				}
 			})
 		}
@@ -336,7 +360,10 @@ func c05Foreign() map[string][]byte {
 
 // c05Neighbours: every state at edit distance one from m over the alphabet (one value changed, one key
 // added with any value, one key removed); in the quick tier only the first of each kind.
-func c05Neighbours(m map[string][]byte, all bool) []map[string][]byte {
+func c05Neighbours(m map[string][]byte, alphabet [][]byte, all bool) []map[string][]byte {
+	if alphabet == nil {
+		alphabet = c05Alphabet
+	}
 	vals := c05StateValues()
 	clone := func() map[string][]byte {
 		c := map[string][]byte{}
@@ -346,7 +373,7 @@ func c05Neighbours(m map[string][]byte, all bool) []map[string][]byte {
 		return c
 	}
 	var changed, added, removed []map[string][]byte
-	for _, k := range c05Alphabet {
+	for _, k := range alphabet {
 		if cur, ok := m[string(k)]; ok {
 			for _, v := range vals {
 				if !bytes.Equal(v, cur) {
@@ -592,7 +619,7 @@ type c05Bounds struct {
 }
 
 func c05RunState(st c05State, b c05Bounds, expired func() bool) *c05Ctx {
-	c := &c05Ctx{expired: expired, st: st, name: c05MapString(st.m), qkeys: c05QueryKeys(), qvals: c05QueryValues(),
+	c := &c05Ctx{expired: expired, st: st, name: c05MapString(st.m), qkeys: c05QueryKeys(st.keys), qvals: c05QueryValues(),
 		cnt: map[string]int64{}, out: map[string]int64{}, vioSeen: map[string]int64{}, intern: map[string]int{}, seen: map[string]struct{}{}}
 	layout := trie.V0
 	if st.ver == 1 {
@@ -702,7 +729,7 @@ func c05RunState(st c05State, b c05Bounds, expired func() bool) *c05Ctx {
 	if deep {
 		fs[0].max = b.deepSubsetMax
 	}
-	for _, nb := range c05Neighbours(st.m, deep) {
+	for _, nb := range c05Neighbours(st.m, st.keys, deep) {
 		max := b.subsetMax
 		if deep {
 			max = b.deepNbMax
@@ -781,8 +808,8 @@ func TestVerif_C05(t *testing.T) {
 	logger.Patch(log.SetLevel(log.Critical), log.SetWriter(io.Discard))
 
 	b := verifmc.Pick(
-		c05Bounds{families: []c05Family{{0, 2, c05StateValues()}, {3, 3, [][]byte{c05V1, c05V33}}}, subsetMax: 3, deepEntries: -1, substEntries: 2, substVals: [][]byte{c05V1, c05V33}, fullSubst: false, orderedPairs: false},
-		c05Bounds{families: []c05Family{{0, 3, c05StateValues()}, {4, 4, [][]byte{c05V1, c05V33}}}, subsetMax: 3, deepEntries: 2, deepSubsetMax: 4, deepNbMax: 3, substEntries: 2, substVals: [][]byte{c05V1, c05V33}, fullSubst: true, orderedPairs: true},
+		c05Bounds{families: []c05Family{{0, 2, c05StateValues(), nil}, {3, 3, [][]byte{c05V1, c05V33}, nil}, {3, 3, [][]byte{c05V1, c05V33}, c05AlphabetZero}}, subsetMax: 3, deepEntries: -1, substEntries: 2, substVals: [][]byte{c05V1, c05V33}, fullSubst: false, orderedPairs: false},
+		c05Bounds{families: []c05Family{{0, 3, c05StateValues(), nil}, {4, 4, [][]byte{c05V1, c05V33}, nil}, {1, 5, [][]byte{c05V1, c05V33}, c05AlphabetZero}}, subsetMax: 3, deepEntries: 2, deepSubsetMax: 4, deepNbMax: 3, substEntries: 2, substVals: [][]byte{c05V1, c05V33}, fullSubst: true, orderedPairs: true},
 	)
 	if !verifmc.Thorough() {
 		c05Alphabet, c05Probes = c05AlphabetQuick, c05ProbesQuick
@@ -795,7 +822,11 @@ func TestVerif_C05(t *testing.T) {
 		for _, v := range f.vals {
 			vn = append(vn, c05ValName(v))
 		}
-		famText = append(famText, fmt.Sprintf("%d..%d entries x values {%s}", f.minN, f.maxN, strings.Join(vn, ",")))
+		ft := fmt.Sprintf("%d..%d entries x values {%s}", f.minN, f.maxN, strings.Join(vn, ","))
+		if f.keys != nil {
+			ft += " over the zero-nibble key alphabet {" + c05KeyList(f.keys) + "} (these keys are also the probes of those states)"
+		}
+		famText = append(famText, ft)
 	}
 	deepText := ""
 	if b.deepEntries >= 0 {
